@@ -691,13 +691,14 @@ impl BinArchive {
         if address >= self.data.len() {
             return Ok(());
         }
-        let range = address..self.data.len();
-        self.data.drain(range.clone());
-        for i in range.step_by(4) {
-            self.text.remove(&i);
-            self.labels.remove(&i);
-            self.pointers.remove(&i);
+        self.data.truncate(address);
+        self.text.retain(|k, _| *k < address);
+        self.labels.retain(|k, _| *k < address);
+        self.pointers.retain(|k, _| *k < address);
+        for addresses in self.cstrings.values_mut() {
+            addresses.retain(|k| *k < address);
         }
+        self.cstrings.retain(|_, addresses| !addresses.is_empty());
         Ok(())
     }
 
